@@ -23,6 +23,9 @@ def pairs(n):
 def simple_graph(n, mask, as_nx=False):
     from cnfgen.graphs import Graph
     E = [e for i, e in enumerate(pairs(n)) if (mask >> i) & 1]
+    if as_nx == "duck":
+        from . import ducks
+        return ducks.computed_graph(n, E), E
     if as_nx:
         # a networkx graph whose labels are not 1..n and whose insertion order is not the label order:
         # the documented conversion numbers the vertices by *sorted* label, so vertex v is the v-th label
@@ -42,6 +45,9 @@ def bipartite_graph(L, R, mask, as_nx=False):
     from cnfgen.graphs import BipartiteGraph
     allp = [(u, v) for u in range(1, L + 1) for v in range(1, R + 1)]
     E = [e for i, e in enumerate(allp) if (mask >> i) & 1]
+    if as_nx == "duck":
+        from . import ducks
+        return ducks.computed_bipartite(L, R, E), E
     if as_nx:
         import networkx
         G = networkx.Graph()
@@ -78,10 +84,25 @@ def bipartite_graph(L, R, mask, as_nx=False):
     return B, E
 
 
-def dag(n, mask):
+def rep_tag(as_nx):
+    """How a graph argument was given, for labels: '', ',nx' (networkx object) or ',user class' (vmon/ducks.py)."""
+    return ",user class" if as_nx == "duck" else ",nx" if as_nx else ""
+
+
+def count_rep(ctx, as_nx):
+    if as_nx == "duck":
+        ctx.count("user_class_inputs")
+    elif as_nx:
+        ctx.count("networkx_inputs")
+
+
+def dag(n, mask, as_nx=False):
     """DAG in topological order: edges u->v with u<v selected by mask."""
     from cnfgen.graphs import DirectedGraph
     E = [e for i, e in enumerate(pairs(n)) if (mask >> i) & 1]
+    if as_nx == "duck":
+        from . import ducks
+        return ducks.computed_dag(n, E), E
     D = DirectedGraph(n)
     for e in E:
         D.add_edge(*e)
@@ -194,9 +215,36 @@ def graph_history_check(ctx, fam, label, gen, r, n=6, rounds=3):
     if st == "exc":
         return
     for step in range(rounds):
-        kind = r.choice(["swap", "swap", "grow", "switch", "switch", "drop"])
+        kind = r.choice(["swap", "swap", "grow", "switch", "switch", "drop", "refused-batch", "refused-batch", "ignored-removal"])
         sw = None
-        if kind == "switch":
+        free = sorted(set(allp) - E)
+        if kind == "refused-batch" and len(free) >= 2:
+            # a batch of insertions that is refused half-way, the caller survives the error: whatever the object then
+            # reports through has_edge is its edge set, and every view / every family must agree with it
+            batch = r.sample(free, min(len(free), r.randint(2, 4)))
+            batch.sort(key=lambda e: (-e[1], -e[0]))
+            bad = r.choice([(n + 3, 1), (1, 1), (0, 2), (2, n + 1)])
+            batch = [(v, u) if r.random() < 0.5 else (u, v) for u, v in batch]
+            try:
+                G.add_edges_from(batch + [bad])
+                refused = False
+            except Exception:       # noqa: BLE001
+                refused = True
+            E = {(u, v) for (u, v) in allp if G.has_edge(u, v)}
+            what = "add_edges_from(%r) [%s]" % (batch + [bad], "refused" if refused else "accepted")
+            ctx.count("refused_batch_edits")
+        elif kind == "ignored-removal":
+            # removals of things that are not edges (also with endpoints that are not vertices) change nothing
+            tried = []
+            for (u, v) in [(-n, r.randint(1, n)), (r.randint(1, n), -1), (0, 1), (n + 1, 1)] + free[:2] + [(-1, -2), (-r.randint(1, n), r.randint(1, n))]:
+                try:
+                    G.remove_edge(u, v)
+                except Exception:   # noqa: BLE001
+                    pass
+                tried.append((u, v))
+            what = "remove_edge of the non-edges %r" % (tried,)
+            ctx.count("ignored_removal_edits")
+        elif kind == "switch":
             # degree-preserving: ab, cd -> ac, bd keeps the vertex count, the edge count and every degree
             for _ in range(40):
                 if len(E) < 2:
@@ -208,7 +256,9 @@ def graph_history_check(ctx, fam, label, gen, r, n=6, rounds=3):
                 if len({a, b, c, d}) == 4 and not (new2 & E):
                     sw = ((a, b), tuple(sorted((c, d))), new2)
                     break
-        if kind == "switch" and sw:
+        if kind == "refused-batch" and len(free) >= 2 or kind == "ignored-removal":
+            pass
+        elif kind == "switch" and sw:
             for e in sw[:2]:
                 G.remove_edge(*e)
             for e in sorted(sw[2]):
